@@ -326,8 +326,13 @@ class Evaluator:
         elif isinstance(t, ast.Attribute):
             st.notes = st.notes + ("store to %s" % norm(t),)
         elif isinstance(t, (ast.Tuple, ast.List)):
-            for e in t.elts:
-                self.store(e, opaque("unpacked"), st)
+            elems = None
+            if v[0] == "obj" and v[1] == "vals" and len(v[2]) == len(t.elts):
+                elems = list(v[2])
+            elif v[0] == "const" and isinstance(v[1], (tuple, list)) and len(v[1]) == len(t.elts):
+                elems = [NONE if x is None else const(x) for x in v[1]]
+            for i, e in enumerate(t.elts):
+                self.store(e, elems[i] if elems is not None and not isinstance(e, ast.Starred) else opaque("unpacked"), st)
 
     # ------------------------------------------------------------ conditions
     def cond(self, test, st: State, fn: FuncInfo, depth: int):
@@ -552,6 +557,8 @@ class Evaluator:
                 for st3, i in self.expr(e.slice, st2, fn, depth):
                     if b[0] == "obj" and b[1] == "unpacked-float" and i == const(0):
                         yield st3, num(b[2])
+                    elif b[0] == "obj" and b[1] == "vals" and i[0] == "const" and isinstance(i[1], int) and -len(b[2]) <= i[1] < len(b[2]):
+                        yield st3, b[2][i[1]]
                     elif b[0] == "const" and i[0] == "const":
                         try:
                             yield st3, const(b[1][_plain(i[1])])
@@ -581,6 +588,35 @@ class Evaluator:
         if isinstance(e, ast.Lambda):
             yield st, obj("lambda")
             return
+        if isinstance(e, (ast.ListComp, ast.GeneratorExp)) and len(e.generators) == 1 and not e.generators[0].ifs \
+                and not e.generators[0].is_async:
+            # [f(buffer) for _ in range(6)]: a comprehension over a constant iterable is the sequence of its elements
+            g = e.generators[0]
+            try:
+                items = list(prog.consteval(g.iter, fn.module))
+            except (NotConst, TypeError):
+                items = None
+            if items is not None and len(items) <= 64:
+                names = [n.id for n in ast.walk(g.target) if isinstance(n, ast.Name)]
+
+                def comp_rec(i, s, acc):
+                    if i == len(items):
+                        yield s, acc
+                        return
+                    s2 = s.copy()
+                    self.store(g.target, NONE if items[i] is None else const(items[i]), s2)
+                    for s3, v in self.expr(e.elt, s2, fn, depth):
+                        yield from comp_rec(i + 1, s3, acc + [v])
+                for s4, vals in comp_rec(0, st, []):
+                    s5 = s4.copy()
+                    for nm in names:        # the loop variable is local to the comprehension
+                        if nm in st.env:
+                            s5.env[nm] = st.env[nm]
+                        else:
+                            s5.env.pop(nm, None)
+                    te = [v for v in vals if v[0] == "typeerror"]
+                    yield s5, (te[0] if te else obj("vals", tuple(vals)))
+                return
         yield st, opaque("expr:%s" % type(e).__name__)
 
     def binop(self, op, l, r, node, st: State):
@@ -707,7 +743,10 @@ class Evaluator:
             yield from self._inline(targets[0], e, st, fn, depth, bound_self=bound and targets[0].cls is not None and not targets[0].is_static)
             return
         # anything else: opaque call over its argument values (arguments may fork)
-        arg_nodes = list(e.args) + [k.value for k in e.keywords]
+        kws = list(e.keywords)
+        if name in ("datetime", "datetime.datetime") and all(k.arg in _DATETIME_FIELDS for k in kws):
+            kws.sort(key=lambda k: _DATETIME_FIELDS.index(k.arg))     # keyword order is immaterial: use the signature's
+        arg_nodes = list(e.args) + [k.value for k in kws]
 
         def args_rec(i, s, acc):
             if i == len(arg_nodes):
@@ -746,7 +785,9 @@ class Evaluator:
             if any(v[0] == "typeerror" for v in vals):
                 yield st2, [v for v in vals if v[0] == "typeerror"][0]
                 continue
-            if name == "float" and len(vals) == 1:
+            if name in ("list", "tuple") and len(vals) == 1 and vals[0][0] == "obj" and vals[0][1] == "vals":
+                yield st2, vals[0]
+            elif name == "float" and len(vals) == 1:
                 if vals[0] == NONE:
                     yield st2, ("typeerror", "float(None)")
                 elif ts[0] is not None:
@@ -838,6 +879,9 @@ class Evaluator:
                     yield out, ("raised", oc[1])
                 else:
                     yield out, NONE
+
+
+_DATETIME_FIELDS = ("year", "month", "day", "hour", "minute", "second", "microsecond", "tzinfo")
 
 
 def _numv(tree) -> Tuple:
